@@ -26,6 +26,7 @@ class HCfg:
     deepcopy: bool = True
     twin: bool = False  # reachability twin: the harness ends with check(False), which must come back violated
     ops: str = "all"  # C15 harness: "exec" restricts the alphabet to executor operations and plain calls
+    prop: str = ""  # run_c09_after_failures: the property the part is run for (default C09)
 
 
 class InstCounter:
@@ -523,7 +524,7 @@ def run_c15_setup_inputs(cfg: HCfg, c: Ctx) -> Any:
 
 
 # ------------------------------------------------------------------------------------------------ C09: operations after a failed operation
-@watchdog(lambda cfg: "C09")
+@watchdog(lambda cfg: cfg.prop or "C09")
 def run_c09_after_failures(cfg: HCfg, c: Ctx) -> Any:
     """Every operation returns or raises, also after an earlier operation on the same (or another) DAG failed: setup() with a
     failing setup node, failing calls and failing executor runs, followed by setup(), calls, executors.  (A call that blocks
@@ -531,10 +532,11 @@ def run_c09_after_failures(cfg: HCfg, c: Ctx) -> Any:
     from tawazi import Resource, dag, xn
     from tawazi.errors import TawaziBaseException
 
+    PROP = cfg.prop or "C09"
     flavour = cfg.flavours[c.choose(len(cfg.flavours), "flavour")] if len(cfg.flavours) > 1 else cfg.flavours
-    OPS = ["setup", "setup_fail:s0", "setup_fail:s1", "call", "call_fail:s1", "call_fail:n", "exec_setup", "other_setup", "other_call"]
+    OPS = ["setup", "setup_fail:s0", "setup_fail:s1", "call", "call_fail:s1", "call_fail:n", "exec_setup", "other_setup", "other_call", "call_toomany", "exec_toomany"]
     hist = [OPS[c.choose(len(OPS), "op")] for _ in range(cfg.length)] + ["setup", "call"]
-    c.assume(any("fail" in o for o in hist))
+    c.assume(any("fail" in o or "toomany" in o for o in hist))
     res = (Resource.main_thread, Resource.thread)[c.choose(2, "resource")]
     c.heavy()
     state = {"fail": None}
@@ -580,6 +582,10 @@ def run_c09_after_failures(cfg: HCfg, c: Ctx) -> Any:
                 r = target.setup()
             elif kind == "exec_setup":
                 r = target.executor().setup()
+            elif kind == "call_toomany":
+                r = target(X, 1, 2)  # invalid arguments: refused, and nothing of the refusal may stick to the DAG
+            elif kind == "exec_toomany":
+                r = target.executor()(X, 1, 2)
             else:
                 r = target(X)
             if hasattr(r, "__await__"):
@@ -594,23 +600,150 @@ def run_c09_after_failures(cfg: HCfg, c: Ctx) -> Any:
             raise
         except (TawaziBaseException, Boom) as e:
             out = ("raise", e)
+        except TypeError as e:
+            if "toomany" not in kind:
+                raise
+            out = ("raise", e)
         finally:
             state["fail"] = None
         d2 = {**data, "step": step, "op": op, "entered": list(entered)}
-        failed_here = bool(arg) and arg in entered
+        failed_here = (bool(arg) and arg in entered) or "toomany" in kind
         if failed_here:
-            c.check(out[0] == "raise", "operation %s returned normally although %s raised" % (op, arg), prop="C09", data=d2)
+            c.check(out[0] == "raise", "operation %s returned normally although %s raised" % (op, arg), prop=PROP, data=d2)
             c.cover("w_failed_operation")
         else:
-            c.check(out[0] == "value", "operation %s raised %r although no node failed" % (op, out[1]), prop="C09", data=d2)
+            c.check(out[0] == "value", "operation %s raised %r although no node failed" % (op, out[1]), prop=PROP, data=d2)
             if kind == "call":
                 want = SymVal(vapp("f_n", [lift(SymVal(vapp("f_s1", [lift(SymVal(vapp("f_s0", [lift(7)])))]))), lift(X)]))
-                c.check(veq(out[1], want), "call returned something else than the plain evaluation", prop="C09", data={**d2, "got": out[1], "want": want})
+                c.check(veq(out[1], want), "call returned something else than the plain evaluation", prop=PROP, data={**d2, "got": out[1], "want": want})
     c.cover("w_operations_after_failure")
     c.cover("states", hash(repr(data)))
     if cfg.twin:
         c.check(False, "reachability twin: the end of the harness is reachable", prop="TWIN")
     return data
+
+
+# ------------------------------------------------------------------------------------------------ C17: the same history on both flavours
+@watchdog(lambda cfg: "C17")
+def run_c17_same_history(cfg: HCfg, c: Ctx) -> Any:
+    """One history of operations (calls, failing calls, invalid calls, executor creations / runs / failing runs / re-runs,
+    setup) is applied to the DAG and to the AsyncDAG built from the same function; after every step both must have done the
+    same thing: the same value, or an exception of the same type, and the same node functions entered."""
+    from tawazi import Resource, dag, xn
+    from tawazi.errors import TawaziBaseException
+
+    OPS = ["call", "call_default", "failcall", "toomany", "exec_new", "exec_new:n1", "exec_run", "exec_failrun", "exec_toomany", "setup"]
+    hist = [OPS[c.choose(len(OPS), "op")] for _ in range(cfg.length)] + ["call"]
+    seen = False
+    for o in hist:
+        if o.startswith("exec_new"):
+            seen = True
+        elif o.startswith("exec_"):
+            c.assume(seen)
+    fail_node = ("s0", "n1", "n2")[c.choose(3, "failnode")] if any("fail" in o for o in hist) else None
+    c.heavy()
+    state = {"fail": None}
+    entered: List[str] = []
+
+    class Boom(Exception):
+        pass
+
+    def make(l: str) -> Any:
+        def fn(*args, **kwargs):  # type: ignore[no-untyped-def]
+            entered.append(l)
+            if state["fail"] == l:
+                raise Boom(l)
+            parts = [lift(a) for a in args]
+            for k in sorted(kwargs):
+                parts += [lift("kw:" + k), lift(kwargs[k])]
+            return SymVal(vapp("f_" + l, parts))
+
+        fn.__name__ = fn.__qualname__ = l
+        return fn
+
+    def build(is_async: bool) -> Any:
+        s0 = xn(make("s0"), setup=True, resource=Resource.main_thread)
+        n1 = xn(make("n1"), resource=Resource.main_thread)
+        n2 = xn(make("n2"), resource=Resource.main_thread)
+
+        def pipe(a, b=11):  # type: ignore[no-untyped-def]
+            m = s0(7)
+            r1 = n1(a, k=m)
+            r2 = n2(r1[0], b)
+            return r1, r2
+
+        pipe.__qualname__ = pipe.__name__ = "pipe"
+        return dag(pipe, is_async=is_async)
+
+    dags = {"s": build(False), "a": build(True)}
+    execs: Dict[str, Any] = {"s": None, "a": None}
+    data: Dict[str, Any] = {"history": hist, "fail_node": fail_node}
+
+    def apply(fl: str, op: str, A: Any, B: Any) -> Tuple[str, Any, List[str]]:
+        name, _, arg = op.partition(":")
+        d = dags[fl]
+        state["fail"] = fail_node if "fail" in name else None
+        entered.clear()
+        try:
+            if name == "call":
+                r = _run(d, A, B)
+            elif name == "call_default":
+                r = _run(d, A)
+            elif name == "failcall":
+                r = _run(d, A, B)
+            elif name == "toomany":
+                r = _run(d, A, B, 3)
+            elif name == "exec_new":
+                execs[fl] = d.executor(target_nodes=[arg]) if arg else d.executor()
+                r = None
+            elif name in ("exec_run", "exec_failrun"):
+                r = _run(execs[fl], A, B)
+            elif name == "exec_toomany":
+                r = _run(execs[fl], A, B, 3)
+            else:
+                r = _run_setup(d)
+            out: Tuple[str, Any] = ("value", r)
+        except SXControl:
+            raise
+        except (TawaziBaseException, Boom, TypeError) as e:
+            out = ("raise", type(e).__name__)
+        finally:
+            state["fail"] = None
+        return out[0], out[1], list(entered)
+
+    for step, op in enumerate(hist):
+        A, B = c.val("a%d" % step), c.val("b%d" % step)
+        rs = apply("s", op, A, B)
+        ra = apply("a", op, A, B)
+        d2 = {**data, "step": step, "op": op, "sync": rs, "async": ra}
+        c.check(rs[0] == ra[0], "operation %s: the DAG %s (%r), the AsyncDAG %s (%r)" % (op, "returned" if rs[0] == "value" else "raised", rs[1], "returned" if ra[0] == "value" else "raised", ra[1]), prop="C17", data=d2)
+        if rs[0] == "raise":
+            c.check(rs[1] == ra[1], "operation %s raised %s on the DAG and %s on the AsyncDAG" % (op, rs[1], ra[1]), prop="C17", data=d2)
+        else:
+            c.check(veq(rs[1], ra[1]), "operation %s returned different values on the DAG and on the AsyncDAG" % op, prop="C17", data=d2)
+        c.check(sorted(rs[2]) == sorted(ra[2]), "operation %s entered %s on the DAG and %s on the AsyncDAG" % (op, sorted(rs[2]), sorted(ra[2])), prop="C17", data=d2)
+        if rs[0] == "raise":
+            c.cover("w_raised_on_both")
+    for fl in ("s", "a"):
+        pass
+    c.check(sorted(k for k in dags["s"].results) == sorted(k for k in dags["a"].results), "the DAG and the AsyncDAG recorded different setup results", prop="C17", data=data)
+    c.cover("w_same_history")
+    c.cover("states", hash(repr(data)))
+    if cfg.twin:
+        c.check(False, "reachability twin: the end of the harness is reachable", prop="TWIN")
+    return data
+
+
+def _run_setup(d: Any) -> Any:
+    r = d.setup()
+    if hasattr(r, "__await__"):
+        import asyncio
+
+        async def w() -> Any:
+            return await r
+
+        return asyncio.run(w())
+    return r
 
 
 # ------------------------------------------------------------------------------------------------ C18
